@@ -2,6 +2,8 @@
 package router_address
 
 import (
+	"strings"
+
 	"github.com/go-i2p/logger"
 	"github.com/samber/oops"
 
@@ -128,8 +130,15 @@ func parseTransportOptions(ra *RouterAddress, routerData []byte) ([]byte, error)
 		}).Error("error parsing RouterAddress")
 	}
 	ra.TransportOptions = transportOptions
-	if transportOptions == nil && len(errs) > 0 {
-		return remainder, oops.Errorf("error parsing RouterAddress options: %v", errs[0])
+	// NewMapping never returns a nil mapping, so the parse errors themselves
+	// decide. The only benign one is the warning emitted whenever anything
+	// follows the mapping (the next address, peer_size, ...); every other
+	// error means the options were cut short or malformed.
+	for _, err := range errs {
+		if strings.Contains(err.Error(), "data exists beyond length of mapping") {
+			continue
+		}
+		return remainder, oops.Errorf("error parsing RouterAddress options: %v", err)
 	}
 	return remainder, nil
 }
